@@ -9,6 +9,7 @@ import operator
 import os
 import socket
 import sys
+import threading
 import warnings
 from pathlib import Path
 from typing import TYPE_CHECKING, Any, TypeGuard
@@ -45,7 +46,7 @@ def dump(obj: Any, path: Path) -> None:
     path.parent.mkdir(parents=True, exist_ok=True)
     # Write to a temporary file and rename it into place, so that an interrupted process
     # never leaves a truncated file behind (the presence of the file marks completion).
-    tmp = path.with_name(f".{path.name}.{os.getpid()}.tmp")
+    tmp = path.with_name(f".{path.name}.{os.getpid()}.{threading.get_ident()}.tmp")
     with tmp.open("wb") as f:
         cloudpickle.dump(obj, f)
     os.replace(tmp, path)
